@@ -169,8 +169,22 @@ static std::pair<long, int> run_history(const uint8_t* data, size_t size, bool c
       }
     } else if (op == 4) {
       // RemoveMatch: same text, an equivalent text (requoted), or a never-added rule
-      int how = (int)pick(f, 3);
+      int how = (int)pick(f, 4);
       std::string text;
+      if (how == 3 && !texts[i].empty()) {
+        // near miss: a held rule with exactly one value changed to another value of the same kind -- must NOT be found
+        MatchRule m0; std::string w0;
+        if (parse_match_rule(texts[i][pick(f, texts[i].size())], &m0, &w0) == RuleParse::Ok) {
+          std::vector<int> present; if (m0.has_path) present.push_back(0); if (m0.has_path_ns) present.push_back(1); if (m0.has_member) present.push_back(2); if (m0.has_iface) present.push_back(3); if (!m0.args.empty()) present.push_back(4); if (!m0.argpaths.empty()) present.push_back(5); if (m0.has_arg0ns) present.push_back(6); if (m0.type) present.push_back(7); if (m0.has_sender) present.push_back(8); present.push_back(9);
+          switch (present[pick(f, present.size())]) {
+            case 0: m0.path = kPath[pick(f, 7)]; break; case 1: m0.path_ns = kPath[pick(f, 7)]; break; case 2: m0.member = kMem[pick(f, 4)]; break; case 3: m0.iface = kIf[pick(f, 4)]; break;
+            case 4: m0.args.begin()->second = kArg[pick(f, 16)]; break; case 5: m0.argpaths.begin()->second = kArg[pick(f, 16)]; break; case 6: m0.arg0ns = kNs[pick(f, 4)]; break;
+            case 7: m0.type = 1 + (int)pick(f, 4); break; case 8: m0.sender = senders[pick(f, senders.size())]; break; default: m0.eavesdrop = !m0.eavesdrop; break;
+          }
+          text = render_rule(m0);
+        }
+      }
+      if (!text.empty()) {} else
       if (how < 2 && !texts[i].empty()) {
         text = texts[i][pick(f, texts[i].size())];
         if (how == 1) { MatchRule mr0; std::string w; if (parse_match_rule(text, &mr0, &w) == RuleParse::Ok && mr0.args.empty() && mr0.argpaths.empty()) { /* re-render with different key order */ std::string t2; if (mr0.has_member) t2 += "member='" + mr0.member + "',"; if (mr0.has_iface) t2 += "interface=" + mr0.iface + ","; if (mr0.type) t2 += std::string("type='") + (mr0.type == 4 ? "signal" : mr0.type == 1 ? "method_call" : mr0.type == 2 ? "method_return" : "error") + "',"; if (mr0.has_path) t2 += "path=" + mr0.path + ","; if (mr0.has_path_ns) t2 += "path_namespace='" + mr0.path_ns + "',"; if (mr0.has_sender) t2 += "sender=" + mr0.sender + ","; if (mr0.has_dest) t2 += "destination=" + mr0.dest + ","; if (mr0.has_arg0ns) t2 += "arg0namespace=" + mr0.arg0ns + ","; if (mr0.eavesdrop) t2 += "eavesdrop=true,"; if (!t2.empty()) t2.pop_back(); text = t2; } }
